@@ -110,6 +110,9 @@ class SpecMixin:
             st.pc.append(t == cat(self.seq_term(st, parts[0]), self.seq_term(st, parts[1])))
         return t
 
+    def old_binds(self, env):
+        return env.binds_old if hasattr(env, 'binds_old') else env.binds
+
     def spec_binop(self, env, op, a, b):
         if op in ('==', '!='):
             r = self.equal(env.st, a, b)
@@ -214,7 +217,7 @@ class SpecMixin:
         if name == 'old':
             if env.old is None:
                 raise Unsupported('old() without entry state')
-            env2 = SpecEnv(env.old, env.binds_old if hasattr(env, 'binds_old') else env.binds, None, env.results)
+            env2 = SpecEnv(env.old, self.old_binds(env), None, env.results)
             return self.sev(env2, args[0])
         if name == 'len':
             x = self.sev(env, args[0])
@@ -354,6 +357,12 @@ class SpecMixin:
             return PROD(a, b)
         if name == 'undef':      # undef(p): optional parameter p was not passed
             return env.binds[args[0][1] + '$undef']
+        if name == 'isplain':
+            x = self.sev(env, args[0])
+            return getattr(x, 'plain', z3.BoolVal(False))
+        if name == 'freshobj':     # the array was allocated by this call
+            x = self.sev(env, args[0])
+            return z3.BoolVal(bool(getattr(x, 'isfresh', False)))
         if name == 'sameobj':
             x, y = self.sev(env, args[0]), self.sev(env, args[1])
             return getattr(x, 'ident', None) == getattr(y, 'ident', None) if hasattr(x, 'ident') else z3.BoolVal(x is y)
